@@ -235,8 +235,8 @@ UNITS['hqueue'] = dict(
     env_calls={'getEvent': 'Pol_getEvent'},
     tuple_ctor=['TupV', 'TupW'],
     exc_edges=True, exit_hooks=['ItemV_ctor_move', 'ItemW_ctor_move'],
-    type_resubst=[(r'QueuedItem<typename FindPrototypeByArgs<.*, VArg &>::ArgsTuple>', HQB + '::QueuedItem<std::tuple<VArg>>'),
-                  (r'QueuedItem<typename FindPrototypeByArgs<.*, WArg &>::ArgsTuple>', HQB + '::QueuedItem<std::tuple<WArg>>')],
+    type_resubst=[(r'QueuedItem<typename FindPrototypeByArgs<.*, VArg( &)?>::ArgsTuple>', HQB + '::QueuedItem<std::tuple<VArg>>'),
+                  (r'QueuedItem<typename FindPrototypeByArgs<.*, WArg( &)?>::ArgsTuple>', HQB + '::QueuedItem<std::tuple<WArg>>')],
     fn_rename=[(r'^HQ_doProcessIf__eventpp_internal__FindPrototypeByCallable_eventpp_HeterTuple_void_VArg_void_WArg_(Pred[VW])_Pred[VW]$', r'HQ_doProcessIf__P0_\1'),
                (r'^HQ_doProcessIf__eventpp_internal__FindPrototypeByCallableFromIndex_(\d)_eventpp_HeterTuple_void_VArg_void_WArg_(Pred[VW])_eventpp_internal__FindPrototypeDefaultArgTransformer_2_Pred[VW]$', r'HQ_doProcessIf__P\1_\2'),
                (r'^HQ_doProcessIf__eventpp_internal__FindPrototypeByCallableFromIndex_\d_eventpp_HeterTuple_.*_(Pred[VW])$', r'HQ_doProcessIf__next_\1'),
@@ -277,3 +277,12 @@ UNITS['eventutil'] = dict(
       (r'^EventDispatcherBase<', 'record', 'EDT'),
     ],
 )
+
+# HeterEventQueue under ArgumentPassingIncludeEvent with a user getEvent that reads through a const reference: only the
+# include-event doEnqueue overload is proved here, for an lvalue and for an rvalue first argument; the spec is unit
+# hqueue's (spec/eventpp/hqueuei is a link to it), parametrised by -DUNIT_HQUEUEI
+UNITS['hqueuei'] = _copy.deepcopy(UNITS['hqueue'])
+UNITS['hqueuei'].update(tu='inst/hqueuei.cpp', env_overloads=True, rename_numbered=True)
+UNITS['hqueuei']['fn_rename'] = [
+    (r'^HQ_doEnqueue__eventpp_ArgumentPassingIncludeEvent_([VW])Arg$', r'HQ_doEnqueueI__\1'),      # the lvalue call comes first in the TU, the rvalue call is numbered _2
+] + UNITS['hqueue']['fn_rename']
